@@ -21,7 +21,7 @@ type feIn struct {
 func init() {
 	register(&Driver{
 		Name:     "fileext",
-		Header:   "From ZenoV Require Import Lib.Harness Ext.FileExt Ext.ExtHarness.\n",
+		Header:   "From Coq Require Import Uint63.\nFrom ZenoV Require Import Lib.Harness Ext.Pack Ext.FileExt Ext.ExtHarness.\n",
 		CaseType: "fcase",
 		Footer:   "\nDefinition DIFF := Eval vm_compute in fdiffs cases.\nPrint DIFF.\nDefinition MON := Eval vm_compute in fmons cases.\nPrint MON.\n",
 		Rule:     "one case = one string given to hasFileExtension: URLs built from parts (so the last path segment and whether it has an extension are known by construction; dots and slashes planted in host, directories, query and fragment) and a dense stream of short strings over the alphabet [/.?#:ab]; distinct by input text; non-trivial when the string contains at least two of the bytes / . ? #",
